@@ -10,6 +10,11 @@ def S(pid, name, rule, *subs):
     CATALOGUE.setdefault(pid, []).append({"name": name, "kind": "seeded", "rule": rule, "subs": list(subs)})
 
 
+def U(pid, name, *subs):
+    """a variant whose safety needs an invariant outside the discharge catalogue: the check must NOT pass (undecided or violation)"""
+    CATALOGUE.setdefault(pid, []).append({"name": name, "kind": "unproven", "subs": list(subs)})
+
+
 def N(pid, name, *subs):
     CATALOGUE.setdefault(pid, []).append({"name": name, "kind": "neutral", "subs": list(subs)})
 
@@ -352,3 +357,18 @@ S("C11", "numeric guard clears the unit", "R1", (D, "            if unit in (\"v
 S("C11", "content decoder parses a different payload", "R5", (D, "    return parse_p1_readout_content(readout.payload)", "    return parse_p1_readout_content(readout.as_bytes)"))
 S("C11", "value and unit swapped", "R6", (D, "            return DataSetValue(pair[0], pair[1])", "            return DataSetValue(pair[1], pair[0])"))
 N("C11", "unit folded with casefold-like temp", (D, "unit = item.values[0].unit.lower() if item.values[0].unit else None", "raw_unit = item.values[0].unit\n            unit = raw_unit.lower() if raw_unit else None"))
+
+# ------------------------------------------------------------------------------------------------ C14
+S("C14", "pinned defect: reader decodes candidate ident lines unchecked", "R1", (D, "                if line[0] == START_CHARACTER_HEX and line.isascii():", "                if line[0] == START_CHARACTER_HEX:"))
+S("C14", "pinned defect: is_valid lets the checksum parse error escape", "R1", (D, "        try:\n            expected_checksum = self.expected_checksum\n        except ValueError:\n            _LOGGER.debug(\"Invalid end line or checksum.\")\n            return False\n", "        expected_checksum = self.expected_checksum\n"))
+S("C14", "pinned defect: failing property re-evaluated inside the handler", "R1", (D, '            _LOGGER.debug("Invalid ident line.")', '            _LOGGER.debug("Invalid ident line: %s", self.identification_line)'))
+S("C14", "handler narrowed to UnicodeDecodeError around int(..., 16)", "R1", (D, "            expected_checksum = self.expected_checksum\n        except ValueError:", "            expected_checksum = self.expected_checksum\n        except UnicodeDecodeError:"))
+S("C14", "end line logged from inside the handler", "R1", (D, '            _LOGGER.debug("Invalid end line or checksum.")', '            _LOGGER.debug("Invalid end line or checksum: %s", self.end_line)'))
+S("C14", "new decode in the collect branch", "R1", (D, "            else:\n                self._raw_data.extend(line)\n                if line[0] == END_CHARACTER_HEX:", "            else:\n                self._raw_data.extend(line)\n                _LOGGER.debug(\"line %s\", line.decode(\"ascii\"))\n                if line[0] == END_CHARACTER_HEX:"))
+S("C14", "raise on over-long frame", "R1", (H, "            self._goto_hunt_mode()\n            frame_complete = False\n\n        return frame_complete", "            self._goto_hunt_mode()\n            raise ValueError(\"frame too long\")\n\n        return frame_complete"))
+S("C14", "too-short test compares with an Optional position", "R1", (H, "        elif self._frame.header.header_check_sequence is None:", "        elif len(self._frame) < self._frame.header.information_position:"))
+U("C14", "format field read without the length guard", (H, "        if len(self._frame) >= 2:\n            return self._frame.as_bytes[0] << 8 | self._frame.as_bytes[1]\n        return None", "        return self._frame.as_bytes[0] << 8 | self._frame.as_bytes[1]"))
+S("C14", "P1 sixth character inspected", "R1", (D, "                if line[0] == START_CHARACTER_HEX and line.isascii():", "                if line[0] == START_CHARACTER_HEX and line[5] != 0 and line.isascii():"))
+S("C14", "assert no longer dominated", "R1", (H, "        elif self._frame is not None:  # not in hunt mode\n            self._append_to_frame(current)", "        else:\n            self._append_to_frame(current)"))
+N("C14", "decode with errors=replace instead of the isascii guard", (D, "                if line[0] == START_CHARACTER_HEX and line.isascii():\n                    line_str = line.decode(\"ascii\")", "                if line[0] == START_CHARACTER_HEX:\n                    line_str = line.decode(\"ascii\", errors=\"replace\")"))
+N("C14", "length guard written as > 1", (H, "        if len(self._frame) >= 2:\n            return self._frame.as_bytes[0] << 8 | self._frame.as_bytes[1]", "        if len(self._frame) > 1:\n            return self._frame.as_bytes[0] << 8 | self._frame.as_bytes[1]"))
